@@ -2272,10 +2272,10 @@ Definition tgt_h : term := fold_left Ext (DataH 1 R0 :: repeat (Atom 1) 6) (Init
 Definition is_fsome (o : fres) : bool := match o with FSome _ => true | _ => false end.
 
 Lemma hang_fixed_witness :
-  t_reachable st_h log_h tgt_h (prop_decs st_h) /\
+  reachable term Init Ext DataH st_h log_h tgt_h (prop_decs st_h) /\
   res_cap (amount64 8 1) 5 = 9 /\
-  length (filter is_fsome (t_outcomes st_h log_h tgt_h 5)) = 7%nat /\
-  forallb is_fsome (t_outcomes st_h log_h tgt_h 5) = true.
+  length (filter is_fsome (outcomes term term_eqb Init Ext DataH st_h log_h tgt_h 5)) = 7%nat /\
+  forallb is_fsome (outcomes term term_eqb Init Ext DataH st_h log_h tgt_h 5) = true.
 Proof.
   split.
   - exists 3, [1], (Some R0), []. split; [now right|]. split.
@@ -2351,3 +2351,197 @@ Proof.
   - exact (level_workers_ok D deqb Hd (fun _ => m_dig m0) (fun a _ => a) (fun _ _ => m_dig m0) st
              (m0 :: log') (m_dig m0) cf k Hcf Hno Hk).
 Qed.
+
+(** * Workers of combinatorialSearch.Process: per-worker contexts *)
+From CSS Require Proofs.BruteForce.
+
+(** [le_bytes] is the little-endian byte decomposition *)
+Lemma le_bytes_div_mod : forall n v,
+  le_bytes (S n) v = (v mod 256) :: le_bytes n (v / 256).
+Proof.
+  intros n v. cbn [le_bytes].
+  change 255 with (Z.ones 8). rewrite Z.land_ones by lia.
+  rewrite Z.shiftr_div_pow2 by lia. reflexivity.
+Qed.
+
+Lemma of_le_le_bytes : forall n v, 0 <= v -> of_le (le_bytes n v) = v mod 256 ^ Z.of_nat n.
+Proof.
+  induction n as [|n IH]; intros v Hv.
+  - cbn [le_bytes of_le]. change (256 ^ Z.of_nat 0) with 1. now rewrite Z.mod_1_r.
+  - rewrite le_bytes_div_mod. cbn [of_le].
+    rewrite IH by (apply Z.div_pos; lia).
+    replace (256 ^ Z.of_nat (S n)) with (256 * 256 ^ Z.of_nat n)
+      by (rewrite Nat2Z.inj_succ, Z.pow_succ_r by lia; reflexivity).
+    rewrite Z.rem_mul_r by (try apply Z.pow_pos_nonneg; lia). reflexivity.
+Qed.
+
+(** the register buffer round trip: binary.LittleEndian.Uint64 of the 8 bytes *)
+Lemma of_le_le_bytes_8 v : 0 <= v < 2 ^ 64 -> of_le (le_bytes 8 v) = v.
+Proof.
+  intro H. rewrite of_le_le_bytes by lia. change (256 ^ Z.of_nat 8) with (2 ^ 64).
+  apply Z.mod_small. exact H.
+Qed.
+
+Lemma flip_reg_nil reg : 0 <= reg < 2 ^ 64 -> flip_reg reg [] = reg.
+Proof. intro H. unfold flip_reg. cbn [flip_bytes]. now apply of_le_le_bytes_8. Qed.
+
+(** C(n, k) subsets, in the order of the combination IDs *)
+Lemma length_subsets : forall n k lo, Z.of_nat (length (subsets k lo n)) = binom n k.
+Proof.
+  induction n as [|n IH]; intros k lo.
+  - destruct k; cbn [subsets length binom]; reflexivity.
+  - destruct k as [|k].
+    + cbn [subsets length binom]. reflexivity.
+    + cbn [subsets]. rewrite app_length, map_length, Nat2Z.inj_add, !IH.
+      rewrite binom_S_S. reflexivity.
+Qed.
+
+Lemma comb_amount_binom d : comb_amount d = binom 64 d.
+Proof.
+  unfold comb_amount, BruteForce.amount_of. change 64 with (Z.of_nat 64).
+  apply binom_fast_eq.
+Qed.
+
+Lemma skipn_skipn_add {A} : forall a b (l : list A), skipn a (skipn b l) = skipn (b + a) l.
+Proof.
+  intros a b. revert a. induction b as [|b IH]; intros a l; [reflexivity|].
+  destruct l as [|x l]; [now rewrite !skipn_nil|]. cbn [Nat.add skipn]. apply IH.
+Qed.
+
+Lemma firstn_add_skipn {A} : forall a b (l : list A),
+  firstn (a + b) l = firstn a l ++ firstn b (skipn a l).
+Proof.
+  induction a as [|a IH]; intros b l; [reflexivity|].
+  destruct l as [|x l]; [now rewrite skipn_nil, !firstn_nil|].
+  cbn [Nat.add firstn skipn app]. now rewrite IH.
+Qed.
+
+(** consecutive intervals cut a list into consecutive pieces *)
+Lemma concat_slices_chain {A} (l : list A) : forall ps a b,
+  BruteForce.chain a b ps -> 0 <= a ->
+  concat (map (slice l) ps) = firstn (Z.to_nat (b - a)) (skipn (Z.to_nat a) l).
+Proof.
+  induction ps as [|[s e] t IH]; intros a b H Ha.
+  - cbn in H. subst b. rewrite Z.sub_diag. reflexivity.
+  - cbn [BruteForce.chain fst snd] in H. destruct H as (-> & Hlt & Hc).
+    pose proof (BruteForce.chain_le _ _ _ Hc) as Hle.
+    cbn [map concat]. rewrite (IH e b Hc ltac:(lia)).
+    unfold slice. cbn [fst snd].
+    replace (Z.to_nat (b - a)) with (Z.to_nat (e - a) + Z.to_nat (b - e))%nat by lia.
+    rewrite firstn_add_skipn. f_equal. f_equal.
+    rewrite skipn_skipn_add. f_equal. lia.
+Qed.
+
+Lemma comb_cfactor_ok cf d : 1 <= cf -> (d <= 64)%nat ->
+  1 <= comb_amount d /\
+  1 <= BruteForce.cfactor cf 0 (comb_amount d) <= comb_amount d /\
+  BruteForce.cfactor cf 0 (comb_amount d) <= cf.
+Proof.
+  intros Hcf Hd.
+  assert (Ha : 1 <= comb_amount d).
+  { rewrite comb_amount_binom. pose proof (binom_pos 64 d Hd). lia. }
+  split; [exact Ha|].
+  destruct (BruteForce.cfactor_ok cf 0 (comb_amount d) Hcf Ha) as (H1 & H2 & _).
+  split; assumption.
+Qed.
+
+(** Under every GOMAXPROCS the contexts of one distance are jointly offered every
+    candidate of that distance, each exactly once, in ID order *)
+Lemma comb_offered_at_partition cf reg d : 1 <= cf -> (d <= 64)%nat ->
+  concat (comb_offered_at cf reg d) = map (flip_reg reg) (subsets d 0 64).
+Proof.
+  intros Hcf Hd. destruct (comb_cfactor_ok cf d Hcf Hd) as (Ha & Hc & _).
+  unfold comb_offered_at, comb_pieces.
+  rewrite (concat_slices_chain _ _ 0 (comb_amount d)
+             (BruteForce.pieces_chain _ _ Hc) ltac:(lia)).
+  cbn [Z.to_nat skipn]. rewrite Z.sub_0_r. apply firstn_all2.
+  rewrite map_length. pose proof (length_subsets 64 d 0) as HL.
+  rewrite comb_amount_binom. lia.
+Qed.
+
+(** at most GOMAXPROCS contexts per distance, at least one, none of them idle *)
+Lemma comb_offered_at_count cf reg d : 1 <= cf -> (d <= 64)%nat ->
+  (1 <= length (comb_offered_at cf reg d))%nat /\
+  Z.of_nat (length (comb_offered_at cf reg d)) <= cf /\
+  Forall (fun l => l <> []) (comb_offered_at cf reg d).
+Proof.
+  intros Hcf Hd. destruct (comb_cfactor_ok cf d Hcf Hd) as (Ha & Hc & Hle).
+  unfold comb_offered_at, comb_pieces. rewrite map_length, BruteForce.pieces_length.
+  split; [lia|]. split; [lia|].
+  rewrite Forall_map.
+  pose proof (BruteForce.chain_bounds _ _ _ (BruteForce.pieces_chain _ _ Hc)) as Hb.
+  eapply Forall_impl; [|exact Hb]. cbn beta. intros [s e]. cbn [fst snd]. intros (H0 & Hlt & He).
+  unfold slice. cbn [fst snd]. intro E.
+  apply (f_equal (@length _)) in E. rewrite firstn_length, skipn_length, map_length in E.
+  cbn [length] in E. pose proof (length_subsets 64 d 0) as HL.
+  rewrite <- comb_amount_binom in HL. lia.
+Qed.
+
+Lemma concat_flat_map {A B} (f : A -> list (list B)) : forall l,
+  concat (flat_map f l) = flat_map (fun x => concat (f x)) l.
+Proof.
+  induction l as [|x l IH]; [reflexivity|].
+  cbn [flat_map]. now rewrite concat_app, IH.
+Qed.
+
+Lemma flat_map_ext_in' {A B} (f g : A -> list B) : forall l,
+  (forall x, In x l -> f x = g x) -> flat_map f l = flat_map g l.
+Proof.
+  induction l as [|x l IH]; intro H; [reflexivity|].
+  cbn [flat_map]. rewrite (H x (or_introl eq_refl)), IH; [reflexivity|].
+  intros y Hy. apply H. now right.
+Qed.
+
+(** everything offered by all contexts of all distances: the candidates of the
+    search space, whatever GOMAXPROCS *)
+Lemma comb_offered_all cf reg maxd : 1 <= cf -> (maxd <= 64)%nat ->
+  concat (comb_offered cf reg maxd)
+  = reg :: flat_map (fun d => map (flip_reg reg) (subsets d 0 64)) (seq 1 maxd).
+Proof.
+  intros Hcf Hm. unfold comb_offered. cbn [concat app]. f_equal.
+  rewrite concat_flat_map. apply flat_map_ext_in'.
+  intros d Hd. apply in_seq in Hd. apply comb_offered_at_partition; [exact Hcf|lia].
+Qed.
+
+Lemma comb_offered_parallelism cf1 cf2 reg maxd : 1 <= cf1 -> 1 <= cf2 -> (maxd <= 64)%nat ->
+  concat (comb_offered cf1 reg maxd) = concat (comb_offered cf2 reg maxd).
+Proof. intros H1 H2 Hm. now rewrite !comb_offered_all. Qed.
+
+Lemma comb_offered_space cf reg maxd v : 1 <= cf -> (maxd <= 64)%nat -> 0 <= reg < 2 ^ 64 ->
+  In v (concat (comb_offered cf reg maxd)) <->
+  exists k bs, (k <= maxd)%nat /\ In bs (subsets k 0 64) /\ v = flip_reg reg bs.
+Proof.
+  intros Hcf Hm Hr. rewrite comb_offered_all by assumption. cbn [In]. rewrite in_flat_map.
+  split.
+  - intros [<-|(d & Hd & Hin)].
+    + exists 0%nat, []. split; [lia|]. split; [cbn; auto|]. now rewrite flip_reg_nil.
+    + apply in_seq in Hd. apply in_map_iff in Hin. destruct Hin as (bs & <- & Hbs).
+      exists d, bs. split; [lia|]. split; [exact Hbs|reflexivity].
+  - intros (k & bs & Hk & Hbs & ->). destruct k as [|k].
+    + cbn [subsets In] in Hbs. destruct Hbs as [<-|[]]. left. now rewrite flip_reg_nil.
+    + right. exists (S k). split; [apply in_seq; lia|]. apply in_map. exact Hbs.
+Qed.
+
+(** the hits of one distance (the contract used by [outcomes]) are the hits among
+    what the worker contexts are offered, under every GOMAXPROCS *)
+Lemma comb_hits_at_workers D (deqb : D -> D -> bool) (pcr_init : Z -> D) (extend : D -> D -> D)
+      (pcr0data : Z -> Z -> D) st target cf loc tail reg ms d : 1 <= cf -> (d <= 64)%nat ->
+  comb_hits_at D deqb pcr_init extend pcr0data st target loc tail reg ms d
+  = somes (map (fun v => match acm_try D deqb pcr_init extend pcr0data st target loc tail ms v with
+                         | Some sw => Some (v, sw)
+                         | None => None
+                         end) (concat (comb_offered_at cf reg d))).
+Proof.
+  intros Hcf Hd. rewrite comb_offered_at_partition by assumption.
+  unfold comb_hits_at. rewrite map_map. reflexivity.
+Qed.
+
+Lemma comb_workers_example :
+  let lens cf d := map (fun l => Z.of_nat (length l)) (comb_offered_at cf 5 d) in
+  lens 4 3%nat = [10416; 10416; 10416; 10416] /\
+  lens 64 3%nat = [10416; 10416; 10416; 10416] /\
+  lens 3 3%nat = [13888; 13888; 13888] /\
+  lens 2 3%nat = [20832; 20832] /\
+  lens 1 3%nat = [41664] /\
+  lens 64 2%nat = [2016].
+Proof. vm_compute. repeat split. Qed.
